@@ -181,25 +181,49 @@ def build_goto(job, root, wdir, extra_defs=()):
         real.append(vpath(s) if s.startswith(("units/", "stubs/", "harness/")) else os.path.join(root, s))
     entry = job["entry"]
     a = os.path.join(wdir, "a.gb")
-    if job.get("remove_bodies"):
-        r0 = os.path.join(wdir, "real.gb")
-        rc, txt, _ = run(["goto-cc"] + inc + defs + ["-c"] + real + ["-o", r0], wdir, 300)
-        if rc:
-            raise Undecided("goto-cc(real) failed:\n" + txt[-2000:])
-        cur = r0
-        for i, fn in enumerate(job["remove_bodies"]):
-            nxt = os.path.join(wdir, "real%d.gb" % i)
-            rc, txt, _ = run(["goto-instrument", "--remove-function-body", fn, cur, nxt], wdir, 300)
-            if rc or "not found" in txt:
-                raise Undecided("remove-function-body %s failed:\n%s" % (fn, txt[-1000:]))
-            cur = nxt
-        real = [cur]
     cmd = ["goto-cc"] + inc + defs + ["--function", entry, vpath(job["harness"])] \
         + [vpath(s) for s in job.get("stubs", [])] + real + ["-o", a]
     rc, txt, _ = run(cmd, wdir, 300)
     if rc:
         raise Undecided("goto-cc failed:\n" + txt[-3000:])
+    if job.get("remove_bodies"):
+        # callee abstraction by executable contract: drop the real body, link the stub that
+        # asserts the precondition and produces exactly the contract's effect
+        cur = a
+        for i, fn in enumerate(job["remove_bodies"]):
+            nxt = os.path.join(wdir, "a_rm%d.gb" % i)
+            rc, txt2, _ = run(["goto-instrument", "--remove-function-body", fn, cur, nxt], wdir, 300)
+            if rc or "not found" in txt2:
+                raise Undecided("remove-function-body %s failed:\n%s" % (fn, txt2[-1000:]))
+            cur = nxt
+        a = os.path.join(wdir, "a_linked.gb")
+        rc, txt2, _ = run(["goto-cc"] + inc + defs + ["--function", entry, cur]
+                          + [vpath(s) for s in job.get("late_stubs", [])] + ["-o", a], wdir, 300)
+        if rc:
+            raise Undecided("linking contract stubs failed:\n" + txt2[-3000:])
+        txt += txt2
     job["_cc_log"] = txt
+    if job.get("havoc_bodies"):
+        # frame-only abstraction of a callee: body := havoc everything reachable through the
+        # pointer parameters, return any value  (== contract assigns(*params) ensures(true))
+        a2 = os.path.join(wdir, "a_havoc.gb")
+        hc = ["goto-instrument"]
+        for fn in job["havoc_bodies"]:
+            hc += ["--generate-function-body", fn]
+        hc += ["--generate-function-body-options", "havoc,params:.*", a, a2]
+        # generate-function-body only fills body-less functions: drop the real body first
+        cur = a
+        for i, fn in enumerate(job["havoc_bodies"]):
+            nxt = os.path.join(wdir, "a_nobody%d.gb" % i)
+            rc, txt, _ = run(["goto-instrument", "--remove-function-body", fn, cur, nxt], wdir, 300)
+            if rc or "not found" in txt:
+                raise Undecided("remove-function-body %s failed: %s" % (fn, txt[-500:]))
+            cur = nxt
+        hc[-2] = cur
+        rc, txt, _ = run(hc, wdir, 300)
+        if rc:
+            raise Undecided("generate-function-body failed: " + txt[-1000:])
+        a = a2
     enforce, replace = job.get("enforce", []), job.get("replace", [])
     if not (enforce or replace or job.get("loops")):
         return a, " ".join(cmd[:1] + ["…"])
@@ -232,11 +256,47 @@ CHECKS = {
 }
 
 
+def unwindset_for(job, gb, wdir):
+    """Map unwind rules (function, regex on the loop's source line, bound) to CBMC loop ids.
+    Loop ids are positional, so they are recomputed from the binary on every run."""
+    rules = job.get("unwind_rules")
+    if not rules:
+        return []
+    rc, txt, _ = run(["cbmc", gb, "--show-loops", "--json-ui"], wdir, 300)
+    try:
+        data = json.loads(txt)
+    except Exception:
+        raise Undecided("show-loops failed")
+    pairs, used = [], set()
+    cache = {}
+    for e in data:
+        for lp in (e.get("loops", []) if isinstance(e, dict) else []):
+            loc = lp.get("sourceLocation", {})
+            fn, f, ln = loc.get("function", ""), loc.get("file", ""), int(loc.get("line", "0") or 0)
+            if f and not os.path.isabs(f):
+                f = os.path.join(loc.get("workingDirectory", wdir), f)
+            if f not in cache:
+                try:
+                    cache[f] = open(f).read().split("\n")
+                except Exception:
+                    cache[f] = []
+            text = cache[f][ln - 1] if 0 < ln <= len(cache[f]) else ""
+            for i, (rf, rx, bound) in enumerate(rules):
+                if rf == fn and re.search(rx, text):
+                    pairs.append("%s:%d" % (lp["name"], bound))
+                    used.add(i)
+                    break
+    for i, (rf, rx, bound) in enumerate(rules):
+        if i not in used and not job.get("unwind_rules_optional"):
+            raise Undecided("unwind rule %s/%s matched no loop (source changed?)" % (rf, rx))
+    return ["--unwindset", ",".join(pairs)] if pairs else []
+
+
 def cbmc_cmd(job, gb, extra=()):
     cmd = ["cbmc", gb, "--no-standard-checks"]
     for c in job.get("checks", ["ptr"]):
         cmd += CHECKS[c]
-    cmd += job.get("cbmc", [])
+    cmd += job.get("cbmc", []) + job.get("_unwindset", [])
     solver = job.get("solver", "minisat")
     if solver == "kissat":
         cmd += ["--external-sat-solver", "kissat"]
@@ -284,8 +344,10 @@ def run_job(job, root, tmp):
     try:
         gb, icmd = build_goto(job, root, wdir)
         res["instrument_cmd"] = icmd
+        job["_unwindset"] = unwindset_for(job, gb, wdir)
         cmd = cbmc_cmd(job, gb, ["--json-ui"])
         res["cbmc_cmd"] = " ".join(["cbmc", "<gb>"] + cmd[2:])
+        open(os.path.join(wdir, "cmd.txt"), "w").write(" ".join(cmd))
         rc, txt, dt = run(cmd, wdir, job.get("timeout", 900), job.get("mem", 12),
                           out=os.path.join(wdir, "cbmc.json"))
         res["solver_s"] = round(dt, 2)
@@ -313,10 +375,16 @@ def run_job(job, root, tmp):
                    "loc": "%s:%s" % (r.get("sourceLocation", {}).get("file", "?"),
                                      r.get("sourceLocation", {}).get("line", "?"))}
             res["props"].append(ent)
-            if r["status"] == "FAILURE":
+            if r["status"] == "FAILURE" and ("unwinding assertion" in ent["desc"] or "recursion unwinding" in ent["desc"]) \
+                    and not job.get("unwind_violation"):
+                res.setdefault("unwind_failed", []).append(ent)
+            elif r["status"] == "FAILURE":
                 res["failed"].append(ent)
             elif r["status"] != "SUCCESS":
                 res.setdefault("unknown", []).append(ent)
+        if res.get("unwind_failed"):
+            raise Undecided("unwinding assertion failed (bound too small for this input space or loop renumbered): %s %s"
+                            % (res["unwind_failed"][0]["id"], res["unwind_failed"][0]["loc"]))
         if res.get("unknown") and not res["failed"]:
             raise Undecided("property %s has status UNKNOWN" % res["unknown"][0]["id"])
         want = job.get("canaries", 1)
@@ -385,6 +453,8 @@ def extract_inputs(trace):
     leaves = {}
     for s in trace:
         if s.get("stepType") == "assignment" and "value" in s:
+            if s.get("sourceLocation", {}).get("function", "__CPROVER").startswith("__CPROVER"):
+                continue      # static initialisation, not a harness input
             lhs = re.sub(r"\[(\d+)[a-zA-Z]*\]", r"[\1]", s.get("lhs", ""))
             if re.match(r"in_\w+", lhs):
                 acc = []
